@@ -192,6 +192,20 @@ def generate(run_seed):
     policy = rng.choice(POLICIES)
     case = {"format": 1, "engine": "threads", "property": PROPERTY, "run_seed": run_seed,
             "scenario": scen, "script": script, "policy": policy, "schedule": None}
+    if st.get("many").random() < 0.004:
+        # SIZE: one handler is asked for more distinct resources than any small table keeps
+        # (40), then for the first one again: the same object, as for two resources
+        scen = {"shape": "many", "nodes": {}, "cache": {}}
+        many = ["m%02d" % i for i in range(40)]
+        for n in many:
+            scen["nodes"][n] = {"kind": "ok", "scheme": "file", "includes": []}
+            scen["cache"][n] = "empty"
+        which = st.get("many").choice(["t_load", "load"])
+        script = [[which, many[0]]] + [[which, n] for n in many[1:]] + [[which, many[0]]]
+        policy = {"kind": "run-to-block"}
+        case = {"format": 1, "engine": "threads", "property": PROPERTY, "run_seed": run_seed,
+                "scenario": scen, "script": script, "policy": policy, "schedule": None}
+        return case
     if st.get("startfault").random() < 0.06:
         # fault: the n-th attempt to start a thread fails ("can't start new thread"); the call it
         # fails in may raise, nothing after it may
